@@ -811,3 +811,98 @@ def gamma_pole_concrete(p, m):
     exact = (Fraction(2) ** k) * (-1 if sign else 1) - Fraction(5772, 10000)      # any value in (0, 1) in place of Euler's constant gives the same rounding
     ok, det = O.check_rounded(r, exact, prec, rnd)
     return ok, 'mpf_gamma(%s2**-%d, %d, %r): gamma(x) = 1/x - 0.5772... lies just below %s2**%d; %s' % ('-' if sign else '', k, prec, rnd, '-' if sign else '', k, det[:200])
+
+
+# ------------------------------------------------------------------------------ log-gamma next to the pole: -log|x| with the mirrored mode
+def loggamma_tiny(p):
+    """mpf_gamma(x, prec, rnd, type=3) for |x| < 2**-(prec+21): log|gamma(x)| = -log|x| - euler*x + ..., and the code returns
+    -mpf_log(|x|).  With mpf_log replaced by the directed rounding of an ARBITRARY irrational L + theta (stub returns floor or
+    ceiling according to the mode it is given; log|x| < 0 here, so L is the magnitude and the stub's value is negative), the
+    result must be the rounding of +(L + theta) in the direction `rnd` asks: floor -> L's floor, ceiling -> L's ceiling."""
+    from mpmath.libmp import gammazeta, libelefun, libmpf
+    from pysym.engine import NORMAL
+    import operator
+    prec, rnd, sign = p['prec'], p['rnd'], p['sign']
+    ob = Ob(wbump(p, prec + 120), timeout_s=p.get('_t', 60))
+    Lf = ob.int('L', 1 << (prec - 1), (1 << prec) - 2)          # |log|x|| = (L + theta) * 2**e, L has exactly prec bits
+    e = 7 - prec
+    seen = []
+
+    def m_log(eng, st, a, k, fr):
+        pr = a[1]
+        r = a[2] if len(a) > 2 else k.get('rnd', 'd')
+        if isinstance(pr, SInt) or pr != prec or r == 'n':
+            raise Unsupported('log stub: precision %r mode %r' % (pr, r))
+        seen.append(r)
+        # value is negative: floor/up -> larger magnitude (L+1), ceiling/down -> L
+        man = V.binop(operator.add, Lf, 1) if r in ('f', 'u') else Lf
+        return eng.call(st, libmpf.from_man_exp, [V.neg(man), e], {}, fr)
+    ob.eng.models[libelefun.mpf_log] = m_log
+    x = ob.mpf('x', 3, exp=ob.int('x_exp', -prec - 90, -prec - 30), sign=sign)
+    outs = ob.run(gammazeta.mpf_gamma, [x, prec, rnd, 3])
+    want = V.binop(operator.add, Lf, 1) if rnd in ('c', 'u') else Lf       # result is positive
+
+    def good(val, st):
+        if not (isinstance(val, tuple) and len(val) == 4):
+            return False
+        return value_matches(val, FALSE, zt(want), B(e), prec + 2, prec)
+    return finish(ob, ob.prove(outs, good))
+
+
+def loggamma_tiny_concrete(p, m):
+    from fractions import Fraction
+    import mpmath
+    from mpmath.libmp import gammazeta
+    prec, rnd, sign = p['prec'], p['rnd'], p['sign']
+    mp = mpmath.mp
+    old = mp.prec
+    try:
+        for k in (prec + 40, prec + 55, m.get('x_exp', -prec - 40) * -1):
+            x = (sign, 5, -k, 3)
+            r = gammazeta.mpf_gamma(x, prec, rnd, 3)
+            mp.prec = 500
+            t = mp.loggamma(abs(mp.make_mpf(x))) if not sign else mp.log(abs(mp.gamma(mp.make_mpf(x))))
+            exact = O.frac_of(t._mpf_)
+            mp.prec = old
+            got = O.frac_of(r)
+            ok = {'f': got <= exact, 'c': got >= exact, 'd': abs(got) <= abs(exact), 'u': abs(got) >= abs(exact)}[rnd]
+            if not ok and abs(got - exact) > Fraction(1, 1 << 400):
+                return False, 'mpf_gamma(%r, %d, %r, type=3) = %s is on the wrong side of log|gamma(x)| = %s' % (x, prec, rnd, float(got), float(exact))
+        return None, 'UNCONFIRMED'
+    finally:
+        mp.prec = old
+
+
+# ------------------------------------------------------------------------------ native witnesses for recorded findings about interval functions
+def iv_points(p):
+    """no solver obligation: the witnesses of a recorded finding (interval function at a point, 600-bit reference)"""
+    raise Unsupported('native witness only')
+
+
+def iv_points_concrete(p, m):
+    import mpmath
+    from mpmath import mp, iv, mpf
+    old, oldiv = mp.prec, iv.prec
+    bad = []
+    try:
+        for fn, prec, man, exp, man2, exp2 in p['points']:
+            mp.prec = 600
+            x = mpf(man) * mpf(2) ** exp
+            y = mpf(man2) * mpf(2) ** exp2 if man2 is not None else None
+            iv.prec = prec
+            if fn == 'atan2':
+                t = mp.atan2(x, y)
+                r = iv.atan2(iv.mpf(x), iv.mpf(y))
+            elif fn == 'pow':
+                t = x ** y
+                r = iv.mpf(x) ** iv.mpf(y)
+            else:
+                t = getattr(mp, fn)(x)
+                r = getattr(iv, fn)(iv.mpf(x))
+            lo, hi = mpf(r.a), mpf(r.b)
+            if not (lo <= t <= hi):
+                mp.prec = 70
+                bad.append('iv.%s(%s%s) at %d bits = [%s, %s] does not contain %s' % (fn, mp.nstr(x, 25), '' if y is None else ', ' + mp.nstr(y, 25), prec, mp.nstr(lo, 22), mp.nstr(hi, 22), mp.nstr(t, 25)))
+        return not bad, '; '.join(bad[:3])
+    finally:
+        mp.prec, iv.prec = old, oldiv
